@@ -17,6 +17,7 @@ Clause(r) ==
     [] r.op = "filter" -> FilterClause(r.inp, r.key, r.vals, r.outf, r.outx, r.inp2)
     [] r.op = "concat" -> ConcatClause(r.inp, r.inpb, r.out, r.inp2, r.inpb2)
     [] r.op = "regex"  -> RegexClause(r.inp, r.key, r.rx, r.out, r.inp2)
+    [] r.op = "raised" -> "transform-raised"
     [] OTHER           -> "unknown-record"
 Init == tid \in 1..Len(Traces) /\ l = 1
 Next == l <= Len(T) /\ l' = l + 1 /\ UNCHANGED tid
